@@ -3,6 +3,8 @@ import Mappy.Wire
 import Mappy.Model.CIDict
 import Mappy.Model.DictUtils
 import Mappy.Model.Printer
+import Mappy.Model.Reload
+import Mappy.Model.Create
 import Mappy.Model.Includes
 import Mappy.Model.Expr
 import Mappy.Gen.Props
@@ -299,6 +301,7 @@ def handle (op : String) (req : Json) : Except String Json := do
   | "echo" => pure (ofJ (← getJ req "v"))
   | "cidict" => cidict req
   | "pp" => pure (resS (Printer.pprint (← getOpts req) Gen.props (← getJ req "d")))
+  | "reload" => pure (ofJ (Printer.normDoc Gen.props (← getJ req "d")))
   | "format_value" =>
     match cellOf Gen.props (← getStr req "type") (← getStr req "attr") with
     | none => pure (Json.mkObj [("err", .str "IOError")])
@@ -308,13 +311,16 @@ def handle (op : String) (req : Json) : Except String Json := do
   | "exprnorm" => do
     let e ← decodeE (← (req.getObjVal? "e"))
     pure (Json.mkObj [("str", .str (l2s (Expr.str e))), ("fixpoint", .bool (Expr.str (Expr.re e) == Expr.str e))])
-  | "include_name" => pure (resS (Includes.includeName (← getStr req "line")))
+  | "include_name" => pure (match Includes.includeName (← getStr req "line") with
+      | some n => Json.mkObj [("ok", .str (l2s n))]
+      | none => Json.mkObj [("ok", .null)])
   | "update" => pure (resJ (DictUtils.update (← getBool req "ci") (← getBool req "ow") (← getJ req "d1") (← getFields req "d2")))
   | "find" => pure (resJ (DictUtils.find (← getBool req "ci") (← getStr req "key") (← getJ req "value") (← getList req "lst")))
   | "findall" => pure (resL (DictUtils.findall (← getBool req "ci") (← getStr req "key") (← getJ req "value") (← getList req "lst")))
   | "findunique" => pure (resL (DictUtils.findunique (← getBool req "ci") (← getStr req "key") (← getList req "lst")))
   | "findkey" => pure (resJ (DictUtils.findkey (← getBool req "ci") (← getJ req "d") (← decodePath req "path")))
   | "vrun" => vrunOp req
+  | "create" => pure (ofRes (fun f => ofJ (.dict f)) (Create.create (← getNat req "fuel") Gen.files (← getStr req "type") (← decodeVer req)))
   | "transform" => transformOp req
   | "classify" => classifyOp req
   | "messages" => messagesOp req
